@@ -220,6 +220,8 @@ tys!(
     ByteArr8, OptU32, OptStr, ResOk, ResErr, Tuple1, Tuple2, Tuple3, Tuple8, ArrU16x3, ArrStrx2, VecU32, VecString,
     VecVecU8, BTreeMapU32Str, Duration, IpAddr, SocketAddr, IntTy, TaggedU32, Tokens, Point, MapRec, Gappy, Color,
     Shape, Wrapper, Borrowed, Tree, TaggedRec, EncOps, BoxStr, CowStr, RangeU32, BoundI16, Wrapping, CString, Path, Empty,
+    ArrIterExact, ArrIterFilter, MapIterExact, MapIterFilter, BTreeSetU16, VecDequeStr, LinkedListU8, BinaryHeapI32, HashMapFixed,
+    HashSetFixed, SystemTime, CellU16, RefCellStr, NonZeroU32, AtomicI64, TagTy, SocketAddrV6, RangeInclusiveI8, Phantom, Slice,
 );
 
 #[derive(Clone, Debug, PartialEq, Eq)]
@@ -445,6 +447,9 @@ static STATIC_BYTES: [u8; 300] = {
 };
 static STATIC_TEXT: &str = "abcdefghijklmnopqrstuvwxyzabcdefghijklmnopqrstuvwxyzabcdefghijklmnopqrstuvwxyzabcdefghijklmnopqrstuvwxyzabcdefghijklmnopqrstuvwxyzabcdefghijklmnopqrstuvwxyzabcdefghijklmnopqrstuvwxyzabcdefghijklmnopqrstuvwxyzabcdefghijklmnopqrstuvwxyzabcdefghijklmnopqrstuvwxyzabcdefghijklmnopqrstuvwxyz";
 
+/// Deterministic hasher state for HashMap/HashSet workloads (SipHash with fixed keys).
+pub type FixedState = std::hash::BuildHasherDefault<std::collections::hash_map::DefaultHasher>;
+
 pub trait EncVisitor {
     type Out;
     fn visit<T: Encode<()> + Debug>(self, v: &T) -> Self::Out;
@@ -589,6 +594,60 @@ pub fn with_value<V: EncVisitor>(spec: &ValSpec, vis: V) -> V::Out {
             vis.visit(&std::ffi::CString::new(s).unwrap_or_default())
         }
         Ty::Path => vis.visit(&std::path::PathBuf::from(gen_string(r, n))),
+        Ty::ArrIterExact => {
+            let v: Vec<u32> = (0..n.min(300)).map(|_| boundary_u64(r) as u32).collect();
+            vis.visit(&minicbor::encode::ArrayIter::new(v.iter()))
+        }
+        Ty::ArrIterFilter => {
+            // inexact size_hint => indefinite-length array
+            let v: Vec<u32> = (0..n.min(300)).map(|_| boundary_u64(r) as u32).collect();
+            vis.visit(&minicbor::encode::ArrayIter::new(v.iter().filter(|x| **x % 3 != 1)))
+        }
+        Ty::MapIterExact => {
+            let v: Vec<(u32, String)> = (0..n.min(200)).map(|i| (boundary_u64(r) as u32, gen_string(r, i % 11))).collect();
+            vis.visit(&minicbor::encode::MapIter::new(v.iter().map(|(k, v)| (*k, v.as_str()))))
+        }
+        Ty::MapIterFilter => {
+            let v: Vec<(String, u64)> = (0..n.min(200)).map(|i| (gen_string(r, i % 9), boundary_u64(r))).collect();
+            vis.visit(&minicbor::encode::MapIter::new(v.iter().filter(|(_, x)| *x % 5 != 0).map(|(k, v)| (k.as_str(), *v))))
+        }
+        Ty::BTreeSetU16 => vis.visit(&(0..n.min(300)).map(|_| boundary_u64(r) as u16).collect::<std::collections::BTreeSet<u16>>()),
+        Ty::VecDequeStr => vis.visit(&(0..n.min(100)).map(|i| gen_string(r, i % 30)).collect::<std::collections::VecDeque<String>>()),
+        Ty::LinkedListU8 => vis.visit(&(0..n.min(300)).map(|_| boundary_u64(r) as u8).collect::<std::collections::LinkedList<u8>>()),
+        Ty::BinaryHeapI32 => vis.visit(&(0..n.min(300)).map(|_| boundary_i64(r) as i32).collect::<std::collections::BinaryHeap<i32>>()),
+        Ty::HashMapFixed => {
+            // fixed hasher: iteration order is a pure function of the keys (RandomState would break replay)
+            let mut m: std::collections::HashMap<u32, String, FixedState> = Default::default();
+            for i in 0..n.min(100) {
+                m.insert(boundary_u64(r) as u32, gen_string(r, i % 12));
+            }
+            vis.visit(&m)
+        }
+        Ty::HashSetFixed => {
+            let mut m: std::collections::HashSet<String, FixedState> = Default::default();
+            for i in 0..n.min(100) {
+                m.insert(gen_string(r, i % 20));
+            }
+            vis.visit(&m)
+        }
+        Ty::SystemTime => vis.visit(&(std::time::UNIX_EPOCH + std::time::Duration::new(boundary_u64(r) >> 8, r.below(1_000_000_000) as u32))),
+        Ty::CellU16 => vis.visit(&std::cell::Cell::new(boundary_u64(r) as u16)),
+        Ty::RefCellStr => vis.visit(&std::cell::RefCell::new(gen_string(r, n))),
+        Ty::NonZeroU32 => vis.visit(&std::num::NonZeroU32::new((boundary_u64(r) as u32).max(1)).unwrap()),
+        Ty::AtomicI64 => vis.visit(&std::sync::atomic::AtomicI64::new(boundary_i64(r))),
+        Ty::TagTy => vis.visit(&Tag::new(boundary_u64(r))),
+        Ty::SocketAddrV6 => vis.visit(&std::net::SocketAddrV6::new(
+            std::net::Ipv6Addr::from((r.next_u64() as u128) << 64 | r.next_u64() as u128),
+            boundary_u64(r) as u16,
+            0,
+            0,
+        )),
+        Ty::RangeInclusiveI8 => vis.visit(&(boundary_i64(r) as i8..=boundary_i64(r) as i8)),
+        Ty::Phantom => vis.visit(&std::marker::PhantomData::<u64>),
+        Ty::Slice => {
+            let v: Vec<u16> = (0..n.min(2000)).map(|_| boundary_u64(r) as u16).collect();
+            vis.visit(&v.as_slice())
+        }
         // a value whose Encode impl writes nothing at all (zero-length encoding)
         Ty::Empty => vis.visit(&EncOps(Vec::new())),
     }
